@@ -47,9 +47,10 @@ RULE = (
     "tuple)."
 )
 ASSUMPTIONS = [
-    "round-trip tolerance 1e-9*range + 8 ulp(max|bound|) per parameter; at "
-    "the two identified end points of a full-period parameter the result is "
-    "compared modulo the period",
+    "round-trip tolerance 1e-9*range + 8 ulp(max|bound|) per parameter; "
+    "inputs within that tolerance of one of the two identified end points of "
+    "a full-period parameter may come back next to the other end (distance "
+    "on the circle) but must stay inside the prior box",
     "log_J + log_J_inv tolerance 1e-9*(1+|log_J|) + 8*eps*kappa, kappa = "
     "1/(relative distance to the singular bound) for logit/log families and "
     "sky poles, 1 otherwise (representation error of the input)",
@@ -186,13 +187,18 @@ def lookup(table, name):
 
 # ------------------------------------------------------- oracle primitives
 def roundtrip_errors(model, p, x_in, x_out):
+    """|x_out - x_in|; for a parameter whose two ends are one identified
+    point, inputs within the tolerance of an end may come back next to the
+    other end (distance on the circle), but never outside the prior box."""
     d = np.abs(x_out - x_in)
     per = model.period(p)
     if per is not None:
         lo, hi = model.bounds[p]
-        at_end = (x_in == lo) | (x_in == hi)
+        tol = model.rt_tol(p)
+        at_end = (np.abs(x_in - lo) <= tol) | (np.abs(x_in - hi) <= tol)
+        in_box = (x_out >= lo - tol) & (x_out <= hi + tol)
         with np.errstate(invalid="ignore"):
-            d = np.where(at_end, np.minimum(d, np.abs(d - per)), d)
+            d = np.where(at_end & in_box, np.minimum(d, np.abs(d - per)), d)
     return d
 
 
